@@ -38,10 +38,9 @@ T == Traces[tid]
 
 Tol   == Dec(1, 3)          \* 1e-12 relative
 Floor == Dec(1, 4)          \* 1e-16 absolute (resolution of the encoding and of BigFix products)
-TolN  == Dec(1000, 2)       \* 1e-7: unit normal from two llh2xyz positions 1 m apart (6.4e6 m magnitudes)
+TolN  == Dec(10, 2)         \* 1e-7: unit normal from two llh2xyz positions 1 m apart (6.4e6 m magnitudes)
 TolAt(scale) == Add(Mul(Tol, scale), Floor)
 
-Other(f) == IF f = "cart" THEN "local" ELSE "cart"
 JV(t) == <<FromJ(t[1]), FromJ(t[2]), FromJ(t[3])>>
 JM(m) == <<JV(m[1]), JV(m[2]), JV(m[3])>>
 None == [frame |-> "", kind |-> "none", raw |-> <<>>, n |-> 0]
@@ -186,12 +185,13 @@ DesignChecks(V, a, b, s, c, d) ==
   IN << <<"design_input", /\ IsPyth(th) /\ d[1] >= d[2] /\ d[2] >= 0
                           /\ Within(V[1][1], dv[1], TolAt(sc)) /\ Within(V[1][2], dv[2], TolAt(sc))
                           /\ Within(V[2][1], dv[2], TolAt(sc)) /\ Within(V[2][2], dv[3], TolAt(sc))>>,
-        <<"exact_axes", Within(a, FromInt(d[1]), TolAt(sc)) /\ Within(b, FromInt(d[2]), TolAt(sc))>>,
+        \* (squares: a rounding of 1e-16 in an eigenvalue is 1e-8 in the semi-axis of a degenerate ellipse)
+        <<"exact_axes", Within(Sq(a), FromInt(d[1] * d[1]), TolAt(sc)) /\ Within(Sq(b), FromInt(d[2] * d[2]), TolAt(sc))>>,
         \* same axis as the designed bearing (mod 180 degrees):  sin B cos th - cos B sin th = 0
         <<"exact_bearing", d[1] > d[2] => Within(Mul(s, CosOf(th)), Mul(c, SinOf(th)), Dec(1000, 3))>> >>
 
-EllipseStep ==
-  /\ ~dead /\ l > 1 /\ l <= Len(T.ev) /\ T.ev[l].a = "Ellipse"
+EllipseStep ==    \* (needs no station: also the only event of traces of kind "ellipse")
+  /\ ~dead /\ (l > 1 \/ T.kind = "ellipse") /\ l <= Len(T.ev) /\ T.ev[l].a = "Ellipse"
   /\ LET ev == T.ev[l] IN
      \E V \in {JM(ev.x)} :
      \E f \in {IF ev.exc # "" THEN "raised"
@@ -212,8 +212,10 @@ RelErrStep ==
      \E f \in {IF ev.exc # "" THEN "raised"
                ELSE LET a == FromJ(ev.y[1])  b == FromJ(ev.y[2])  u == FromJ(ev.y[3])
                         s == FromJ(ev.aux[1])  c == FromJ(ev.aux[2])
-                    IN FirstFail(EllipseChecks(L, a, b, s, c, Norm1(Dm))
-                                 \o << <<"up_error", ~Lt(u, Zero) /\ Within(Sq(u), L[3][3], TolAt(Norm1(Dm)))>> >>, 1)} :
+                        \* the code rotates the three blocks and then subtracts: roundings are relative to the blocks
+                        sc == Add(Add(Norm1(JM(ev.v1)), Norm1(JM(ev.v2))), MulSmall(Norm1(JM(ev.c12)), 2))
+                    IN FirstFail(EllipseChecks(L, a, b, s, c, sc)
+                                 \o << <<"up_error", ~Lt(u, Zero) /\ Within(Sq(u), L[3][3], TolAt(sc))>> >>, 1)} :
         /\ (IF f = "" THEN TRUE ELSE Report("RelErr." \o f))
         /\ dead' = (f # "")
   /\ l' = l + 1 /\ UNCHANGED <<tid, rm, cur, org>>
@@ -224,12 +226,20 @@ KLo == -5
 KHi == 200
 KIdx(dof) == dof - KLo + 1
 KY(dof) == FromJ(T.ev[KIdx(dof)].y)
-KSlack == Dec(2, 1)              \* 2e-5: rounding of the three entries of a second difference
-\* the Student-t quantile clause, evaluated once per table (constant level) for every k-trace of the batch
+KSlack == Dec(2000, 2)           \* 2e-5: rounding of the three entries of a second difference
+\* The Student-t quantile clause is the expensive one (~0.15 s per entry).  It is evaluated once per table,
+\* inside an ASSUME (where TLC caches operator arguments; as a plain constant definition the same expression
+\* took minutes), stored with TLCSet and read by the steps.  A k-trace carries qmod = <<m, r>>: this copy
+\* of the table answers for the entries with dof % m = r, so that the driver can spread one table over
+\* m parallel TLC processes; the other clauses are evaluated on every copy.
 KTraceIds == {i \in 1..Len(Traces) : Traces[i].kind = "k"}
-KQuantileBad == [i \in KTraceIds |->
-                   {nu \in KMin..KMax : KIdx(nu) <= Len(Traces[i].ev) /\ Traces[i].ev[KIdx(nu)].exc = ""
-                                        /\ ~QuantileOK(nu, FromJ(Traces[i].ev[KIdx(nu)].y))}]
+KQuantileBadOf(trs) ==
+  UNION { UNION { IF /\ nu % trs[i].qmod[1] = trs[i].qmod[2]
+                     /\ KIdx(nu) <= Len(trs[i].ev) /\ trs[i].ev[KIdx(nu)].exc = ""
+                     /\ ~QuantileOK(nu, FromJ(trs[i].ev[KIdx(nu)].y))
+                  THEN {<<i, nu>>} ELSE {} : nu \in KMin..KMax } : i \in KTraceIds }
+ASSUME TLCSet(7, KQuantileBadOf(Traces))
+KQuantileBad == TLCGet(7)
 KChecks(ev) ==
   LET k == KAbstract([int |-> ev.int, v |-> ev.dof]) IN
   IF k.kind = "TypeError" THEN << <<"type_error", ev.exc = "TypeError">> >>
@@ -242,7 +252,8 @@ KChecks(ev) ==
      <<"above_normal_limit", k.kind = "entry" => Gt(FromJ(ev.y), Dec(19599, 1))>>,
      <<"convex", (k.kind = "entry" /\ ev.dof \in (KMin + 1)..(KMax - 1))
                     => Geq(Add(Sub(Add(KY(ev.dof - 1), KY(ev.dof + 1)), MulSmall(FromJ(ev.y), 2)), KSlack), Zero)>>,
-     <<"student_t_quantile", (k.kind = "entry" /\ ev.dof \in KMin..KMax) => ev.dof \notin KQuantileBad[tid]>> >>
+     <<"student_t_quantile", (k.kind = "entry" /\ ev.dof \in KMin..KMax /\ ev.dof % T.qmod[1] = T.qmod[2])
+                                => <<tid, ev.dof>> \notin KQuantileBad>> >>
 
 KStep ==
   /\ ~dead /\ T.kind = "k" /\ l <= Len(T.ev) /\ T.ev[l].a = "KVal"
